@@ -89,6 +89,7 @@ PURE_FUNCS = {
     "exact_log2",
     "ceil_log2",
     "bits_for",
+    "top_module",
 }
 LIST_MUTATORS = {"append", "extend", "add", "update", "insert"}
 
@@ -753,8 +754,12 @@ class Extractor:
                 keys = [kv[0] for kv in t[3][1]]
                 if t[2][0] == "c" and all(kk[0] == "c" for kk in keys):
                     return t[2] in keys
-        if k in ("obj", "lam"):
+        if k == "lam":
             return True
+        if k == "obj":
+            o = self.objects.get(t[1])
+            if o is not None and o.ctor[0] == "call" and not _container_ctor(o.ctor) and o.ctor[1] != ("n", "Array"):
+                return True  # a hardware / component object (not a python container whose emptiness matters)
         return None
 
     def st_For(self, s):
@@ -904,6 +909,12 @@ class Extractor:
         cid = self.fresh()
         self.closures[cid] = Closure(cid, s, list(self.scopes), s.name)
         self.bind(s.name, ("lam", cid))
+        # variables the closure rebinds (`nonlocal x`) may change at any later call: make them symbolic
+        for n in ast.walk(s):
+            if isinstance(n, ast.Nonlocal):
+                for name in n.names:
+                    if self.lookup(name) is not None:
+                        self.rebind(name, ("n", name))
         if s.name in self.enter_closures and not self.inline_stack:
             # analyse the local function in the context of its definition, with symbolic parameters
             a = s.args
@@ -1113,11 +1124,14 @@ class Extractor:
                 # local context manager (generator with yield): inline up to the yield is not modelled;
                 # keep an opaque frame carrying the call
                 val = ("call", f, tuple(self.ev(a) for a in ce.args), tuple((k.arg, self.ev(k.value)) for k in ce.keywords))
+                val = ("call", ("n", self.closures[f[1]].name), val[2], val[3])
+                self.emit(Effect, s, call=("call", ("n", "with"), (val,), ()))
                 self.frames.append(("with", val))
                 if as_name is not None:
                     self._assign_pattern(as_name, ("ret", self.fresh()))
                 return (1, None)
         val = self.ev(ce)
+        self.emit(Effect, s, call=("call", ("n", "with"), (val,), ()))
         self.frames.append(("with", val))
         if as_name is not None:
             self._assign_pattern(as_name, ("a", val, "__enter__"))
@@ -1297,6 +1311,9 @@ class Extractor:
             return self.ev(e.body)
         if known is False:
             return self.ev(e.orelse)
+        if not any(s[0] == "b" for s in subterms(t)):
+            # a python conditional expression is always generation-level: decide it like an `if`
+            return self.ev(e.body) if self._decide_term(t) else self.ev(e.orelse)
         return ("ife", t, self.ev(e.body), self.ev(e.orelse))
 
     def ex_NamedExpr(self, e):
